@@ -101,7 +101,13 @@ def check(R, F):
         flags[const_name(t['args'][1])] = g[-1] if g else None
     ct = F.struct('rr::rdata::ComponentType')
     names = [v['name'] for v in ct['variants']]
-    ok = set(flags) == {'true', 'false'} and flags['true'].endswith('in [%d]' % names.index(C)) and flags['false'].endswith('in [%d]' % names.index(U))
+    ok = set(flags) == {'true', 'false'} and (flags['true'] or '').endswith('in [%d]' % names.index(C)) and (flags['false'] or '').endswith('in [%d]' % names.index(U))
+    if not ok and len(bn) == 1 and bn[0][1]['args'][1]['k'] != 'const':
+        # one shared call whose flag is computed from the variant: compressible = matches!(ty, CompressibleName)
+        txt = paths.show_operand(nx, bn[0][1]['args'][1])
+        arms = re.findall(r'in \[([\d, ]+)\]', txt) if txt.startswith('true-when{') and 'not in' not in txt else []
+        ok = arms == [str(names.index(C))] and 'discr(' in txt
+        flags = {'computed': txt}
     R.require(ok, 'classification', nx.gpath + '|flag-by-variant', nx.where(), 'CompressibleName -> compressible = true, UncompressibleName -> false', 'Components::next passes compressible flags %s' % flags)
     bc = F.fn('rr::rdata::build_name_component')
     aggs = {}
